@@ -31,6 +31,24 @@ CHECKS = {
  "C20": ("E-ENUM", "model_checking", "bounded-exhaustive enumeration of documents with one or two leaves replaced by each of 24 non-JSON Go values x all short paths, against the reference model",
          "Every short path (all comparison atoms, functions) is evaluated on every small document in which one leaf (or the root, or two leaves) is replaced by a non-JSON value; the model treats such a value as an opaque scalar, so values, failure and the ErrorTypeUnmatched text naming the Go type must agree, and nothing may panic.",
          "Trusted: the reference model (no special case for non-JSON values), identity comparison for reference kinds.", "DESIGN.md §4 C20"),
+ "C04": ("E-ENUM", "exploration", "bounded-exhaustive enumeration of filter-heavy paths x documents x {plain, accessor}; invariant (deep snapshot before = after) checked on every execution",
+         "Every atom, every pairwise && / || combination and depth-3 shape of the filter alphabet is placed as a filter in 7 positions, plus all short paths of every step kind; after every call, successful or not, in plain and accessor mode, the caller's document is compared structurally with an untouched copy.",
+         "Trusted: the structural comparison; a difference is confirmed on a fresh document and fresh Parse before it is reported. The shared-between-goroutines clause is C06's.", "DESIGN.md §4 C04"),
+ "C08": ("E-ENUM", "exploration", "bounded-exhaustive enumeration of every decomposition of every path, with a relational oracle over three or more retrievals of the implementation",
+         "For every path of the bound and every split point, every recursive-descent step and every union / multi-name selector, the whole path must return exactly the concatenation, in order, of the continuation applied to each value (or each container in pre-order) selected by the prefix, and fail exactly when that concatenation is empty.",
+         "Trusted: the harness's pre-order container listing; no reference model. Continuations with a $-rooted operand or an aggregate function are excluded as the property states.", "DESIGN.md §4 C08"),
+ "C09": ("E-ENUM", "exploration", "bounded-exhaustive enumeration of filter expressions x containers x root values with relational (set-algebra and duality) oracles between runs of the implementation",
+         "All comparison, existence and regex atoms, their pairwise && / || combinations and depth-3 shapes are evaluated on arrays and objects of 0..6 pairwise-distinct members that hit, miss or mistype the operand paths; selections are read back as position sets and must satisfy intersection, union, complement (!path, !=), mirrored-operand, <=/>= = strict ∪ ==, and parenthesis laws, in container order.",
+         "Trusted: reading a result back as positions (members are pairwise distinct by construction); no reference model.", "DESIGN.md §4 C09"),
+ "C10": ("E-ENUM", "model_checking", "complete enumeration of comparison atoms x operand values of every JSON type x decodings against the model's type-strict table, plus float64-vs-json.Number relational oracle",
+         "Every atom is applied to members whose @.a/@.b and root $.a/$.b take every value of the type alphabet (absent, numbers in several spellings, strings, booleans, null, object, array); the selection must equal the type-strict model in both decodings, and the json.Number decoding of the same JSON text must select the same members as the float64 decoding.",
+         "Trusted: the reference model's comparison table (Appendix A.3); non-shortest number spellings are excluded only where two paths are compared with == / != (as the property allows).", "DESIGN.md §4 C10"),
+ "C16": ("E-ENUM", "exploration", "bounded-exhaustive enumeration of keys over a 41-chunk alphabet x spellings x positions x near-miss sibling sets against direct map lookup",
+         "Every key of up to 3 chunks (all ASCII symbol classes, controls, 2/3/4-byte characters, escape-like literal texts) is looked up in 5-7 spellings (minimal and full \\uXXXX escaping in both quote styles, dot notation with escapes, lone surrogates) at the root, after .., as a filter operand and between two steps, alone and among siblings that differ only by escape characters; exactly the member's value must come back.",
+         "Trusted: Go map lookup as the oracle, the harness's own escapers.", "DESIGN.md §4 C16"),
+ "C18": ("E-ENUM", "exploration", "bounded-exhaustive enumeration of path ASTs x every spelling deviating at one (thorough: two) optional sites x documents, relational oracle canonical vs variant",
+         "For every path AST of the bound every spelling that differs from the canonical one at one optional site (spaces at each position the grammar allows, quote style, +/leading zeros, dot vs bracket, .* vs [*], omitted $) is parsed and evaluated on every document; values must be equal, or errors of the same type naming the same step.",
+         "Trusted: the renderer's list of optional sites (derived from jsonpath.peg by hand), the mapping of error texts to step indices.", "DESIGN.md §4 C18"),
 }
 
 def main():
